@@ -41,6 +41,16 @@ var (
 		Text: "string literals and map keys are compared with MaxStringLen before they enter the constant pool"}
 	rFRAMES1 = &Rule{Name: "FRAMES.1", Floor: 2, Fn: ruleFRAMES1,
 		Text: "every frame push in the dispatch function is dominated by `framesIndex >= MaxFrames` reporting ErrStackOverflow; the frames array has MaxFrames slots"}
+	rCMP1 = &Rule{Name: "CMP.1", Floor: 36, Fn: ruleCMP1,
+		Text: "every comparison arm of every BinaryOp (<, >, <=, >=) reduces, after normalising mirrored operands / || of relations / inverted branches (no negation for floats), to exactly the relation its token denotes between receiver and right operand, compared in the wider of the two value types; time arms via Before/After/Equal"}
+	rCMP2 = &Rule{Name: "CMP.2", Floor: 40, Fn: ruleCMP2,
+		Text: "acceptance symmetry: T has an arm (op, U) iff U has (mirror(op), T); the four comparison operators come as a complete set per type pair; T.Equals accepts U iff U.Equals accepts T"}
+	rCMP3 = &Rule{Name: "CMP.3", Floor: 2, Fn: ruleCMP3,
+		Text: "the VM arms of == and != call (second from top).Equals(top) directly and differ exactly in the singleton pushed per branch"}
+	rOPARM = &Rule{Name: "OPARM", Floor: 30, Fn: ruleOPARM,
+		Text: "every arithmetic/bitwise/concatenation arm computes receiver <op> right with the Go operator spelled like its token (token.tokens table), operands in order for non-commutative operators, in the documented result type (float if either is float, else char if either is char, else int); identity shortcut only when result == receiver's value; time arms via Add/Add(-)/Sub"}
+	rOPDOC = &Rule{Name: "OPDOC", Floor: 60, Fn: ruleOPDOC,
+		Text: "the set of (left type, operator, right type) arms implemented by the BinaryOp methods equals the set documented in docs/operators.md (two tabled undocumented arms)"}
 )
 
 func allProperties() []*Property {
@@ -48,7 +58,7 @@ func allProperties() []*Property {
 		{ID: "C01",
 			Decided:    "compiler, generic codec, opcode tables and every VM arm agree byte for byte on the instruction format.",
 			NotDecided: "the language semantics themselves (values computed by operators, control flow, scoping, builtins).",
-			Rules:      []*Rule{rCODEC1, rCODEC2, rCODEC3, rFRESH}},
+			Rules:      []*Rule{rCODEC1, rCODEC2, rCODEC3, rFRESH, rOPARM, rOPDOC}},
 		{ID: "C02",
 			Decided:    "instruction format agreement; opcode-class agreement.",
 			NotDecided: "stack balance and jump well-formedness for all compiled programs.",
@@ -80,7 +90,7 @@ func allProperties() []*Property {
 		{ID: "C10",
 			Decided:    "Copy is deep and fresh for every container.",
 			NotDecided: "arithmetic results; NaN/±0 laws as numeric facts.",
-			Rules:      []*Rule{rCOPY1}},
+			Rules:      []*Rule{rCMP1, rCMP2, rCMP3, rCOPY1}},
 		{ID: "C15",
 			Decided:    "lock discipline of the accessor methods.",
 			NotDecided: "the history clause over all call sequences.",
